@@ -332,6 +332,10 @@ func c16Scenarios() []*explore.Scenario {
 					if err := ap.Apply(&wal.Entry{SequenceNumber: 3, Type: wal.OpTypeDelete, Key: []byte("a")}); err != nil {
 						applyErr = err
 					}
+					// the replica ends every applied batch with the applier's sync step (flush of the memtables)
+					if err := ap.Sync(); err != nil {
+						applyErr = err
+					}
 				})
 				t2 := vsched.GoNamed("CLIENT", func() { clientErr = client(r.Eng, srv) })
 				vsched.Join(t1)
@@ -514,7 +518,7 @@ func init() {
 		ID:    "C16",
 		Level: "model_checking",
 		Rule: "(A) the mutator set is computed: every entry point of *EngineFacade, transaction.Transaction and *KevoServiceServer (method sets by reflection; a method with neither a body nor a recorded exclusion is a HARNESS-ERROR) is invoked on a read-write twin holding data in 2 SSTables and the memtable; a call after which the scan or the log entries differ is a mutator. On the same state with SetReadOnly(true): every mutator except the *Internal replication bypasses must return a read-only error and leave scan and log unchanged; the bypasses must still take effect; non-mutators must succeed. " +
-			"(B) schedules: EngineApplier.Apply of 2 replicated entries against a client Put / Delete / BatchWrite, and while a client's read-only transaction stays open and reads (the apply must complete before the transaction ends), all interleavings up to the deviation bound (2 quick, 3 thorough): client always rejected, both entries applied, final state = replicated entries only, read-only flag intact. (C) replication.Manager started in standalone / primary / replica mode: GetNodeInfo reports role, primary address and read_only equal to the configured truth, and read_only follows the engine's flag (and what a client Put experiences) when the flag is switched in either direction; after Start returned in replica mode client writes are rejected, and still are after the manager was stopped while the node reports the replica role. Non-trivial = entry points evaluated / executions with a cross-thread conflict",
+			"(B) schedules: EngineApplier.Apply of 2 replicated entries followed by the applier's Sync (the replica's whole apply cycle) against a client Put / Delete / BatchWrite, and while a client's read-only transaction stays open and reads (the apply must complete before the transaction ends), all interleavings up to the deviation bound (2 quick, 3 thorough): client always rejected, both entries applied, final state = replicated entries only, read-only flag intact. (C) replication.Manager started in standalone / primary / replica mode: GetNodeInfo reports role, primary address and read_only equal to the configured truth, and read_only follows the engine's flag (and what a client Put experiences) when the flag is switched in either direction; after Start returned in replica mode client writes are rejected, and still are after the manager was stopped while the node reports the replica role. Non-trivial = entry points evaluated / executions with a cross-thread conflict",
 		Assumptions: []string{"the window inside Manager.Start (replica started before the engine is switched to read-only) is not part of 'running as a replica' and is not flagged", "the manager unit runs free (real listeners on loopback)"},
 		Units: func(tier string) []string {
 			us := []string{"seq", "manager"}
